@@ -1688,9 +1688,29 @@ impl<'comments> Formatter<'comments> {
                         .group()
                 }
 
-                _ => self.expr(fun, false).append(
-                    wrap_args(args.iter().map(|a| (self.call_arg(a, false), false))).group(),
-                ),
+                _ => {
+                    // A constructor applied to labelled arguments only is written with
+                    // braces, like in `call`: `Foo(i: _, b: True)` would not parse.
+                    let is_constr = match fun.as_ref() {
+                        UntypedExpr::Var { name, .. } => {
+                            name[0..1].chars().all(|c| c.is_uppercase())
+                        }
+                        UntypedExpr::FieldAccess { label, .. } => {
+                            label[0..1].chars().all(|c| c.is_uppercase())
+                        }
+                        _ => false,
+                    };
+
+                    let needs_curly = is_constr && args.iter().all(|arg| arg.label.is_some());
+
+                    self.expr(fun, false).append(
+                        wrap_args(
+                            args.iter()
+                                .map(|a| (self.call_arg(a, needs_curly), needs_curly)),
+                        )
+                        .group(),
+                    )
+                }
             },
 
             // The body of a capture being not a fn shouldn't be possible...
